@@ -252,8 +252,8 @@ RESERVED_WORDS = {
     "where",
 }
 
-LEGAL_CHARACTERS = re.compile(r"^[A-Z0-9_$]+$", re.I)
-LEGAL_CHARACTERS_PLUS_SPACE = re.compile(r"^[A-Z0-9_ $]+$", re.I)
+LEGAL_CHARACTERS = re.compile(r"^[A-Z0-9_$]+\Z", re.I)
+LEGAL_CHARACTERS_PLUS_SPACE = re.compile(r"^[A-Z0-9_ $]+\Z", re.I)
 ILLEGAL_INITIAL_CHARACTERS = {str(x) for x in range(0, 10)}.union(["$"])
 
 FK_ON_DELETE = re.compile(
